@@ -15,7 +15,7 @@ CHECKS = {
               "are released one at a time by a drawn tape. Oracle: reply == sha256(own request)||len||pad, handler ran exactly once with the caller's bytes, "
               "one request and one response envelope per id on the tap; plus a smoke job (TestC01Net) running 1..16 concurrent unary calls over a real loopback WebSocket pair and over two GoatOverHttp endpoints (wall-clock budget, overrun = inconclusive). Non-trivial = (>=2 calls and reply order != request order on the wire) or a request that is empty or >=16KiB; "
               "distinct = distinct canonical case JSON (64-bit hash)."),
-        jobs=[dict(test="TestC01", quick=1920, thorough=24000), dict(test="TestC01Net", quick=64, thorough=1000, shards=4)],
+        jobs=[dict(test="TestC01", quick=1920, thorough=24000), dict(test="TestC01Net", quick=64, thorough=1000, shards=4), dict(test="TestC01Reuse", quick=200, thorough=2000, shards=4)],
         floors={"reordered=true": 0.15, "topo=proxy": 0.1, "topo=demux": 0.1, "ser=true": 0.25},
         assumptions=COMMON_ASSUMPTIONS,
     ),
@@ -104,8 +104,8 @@ CHECKS = {
               "one more unary call and one more stream are started after the failure, and optionally a call is parked by the verif hook between the multiplexer's failure check and its registration until the failure has been recorded. "
               "Oracle: at the next quiescent point every call has returned; a call succeeds only if its complete response had been delivered, and then with exactly the scripted data; streams receive a prefix of the scripted bodies and never end in io.EOF before their trailer was delivered; Header() returns; calls started afterwards and the window call fail. "
               "Non-trivial = trace length >=2, or window armed, or write side still writable; counters.positions = (scenario, position) executions."),
-        jobs=[dict(test="TestC09", quick=960, thorough=6000)],
-        floors={"window=unary": 0.1, "window=stream": 0.1, "write_fails=false": 0.3},
+        jobs=[dict(test="TestC09", quick=960, thorough=6000), dict(test="TestC09Storm", quick=1600, thorough=40000)],
+        floors={"window=unary": 0.03, "window=stream": 0.03, "write_fails=false": 0.1},
         assumptions=COMMON_ASSUMPTIONS + ["the check-then-register window is reached through the verif-tagged yield points mux.unary.beforeRegister / mux.stream.beforeRegister"],
     ),
     "C10": dict(
@@ -146,8 +146,8 @@ CHECKS = {
               "Oracle: every call/handler observes exactly its own envelope contents in its own order and nothing else (tokens, request metadata, trailer metadata, echoes per id); the opening ids on the wire are pairwise distinct and as many as calls. "
               "Non-trivial = an interleaving with >=1 switch between calls, or a burst of >=8 concurrent starts; distinct = distinct (side, shape, interleaving)."),
         jobs=[dict(test="TestC05Enum", kind="enum", quick=1, thorough=1), dict(test="TestC05", quick=3200, thorough=20000), dict(test="TestC05IDs", quick=480, thorough=2000),
-              dict(test="TestC05History", kind="enum", quick=1, thorough=1, shards=1)],
-        floors={"side=client": 0.2, "side=server": 0.2},
+              dict(test="TestC05History", kind="enum", quick=1, thorough=1, shards=1), dict(test="TestC05Reuse", quick=200, thorough=2000, shards=4)],
+        floors={"side=client": 0.15, "side=server": 0.15},
         assumptions=COMMON_ASSUMPTIONS,
     ),
     "C14": dict(
@@ -199,8 +199,8 @@ CHECKS = {
               "write an envelope on k's logical connection, Cancel(k), Stop()}, the bubble settled after every operation; reference model model.Demux simulates the run loop (FIFO of fed envelopes, lookup/creation of the key's current life, hand-off blocked by a paused reader, drop of the parked envelope on Cancel, new life on next use). "
               "Oracle: every logical connection received exactly the envelopes the model hands to that life, in order; announcements == key lives; envelopes written on logical connections appear unchanged and in order on the shared transport; writes on a cancelled connection fail without blocking; readers of cancelled connections have returned with an error; Run has returned after Stop; no panic. "
               "rpc: the C01/C02 generators from 2..4 logical clients through one shared transport into one Server via Demux keyed by source, same oracles. Non-trivial = >=2 keys, a Cancel or a Stop."),
-        jobs=[dict(test="TestC18", quick=6400, thorough=80000), dict(test="TestC18RPC", quick=320, thorough=8000)],
-        floors={"cancel=true": 0.25, "stop=true": 0.02, "cancel_while_parked=true": 0.03},
+        jobs=[dict(test="TestC18", quick=6400, thorough=80000), dict(test="TestC18RPC", quick=320, thorough=8000), dict(test="TestC18Parked", quick=300, thorough=3000, shards=4)],
+        floors={"cancel=true": 0.2, "stop=true": 0.02, "cancel_while_parked=true": 0.02},
         assumptions=COMMON_ASSUMPTIONS,
     ),
     "C19": dict(
